@@ -38,6 +38,7 @@ type LogEntry struct {
 type InitSpec struct {
 	AppState  json.RawMessage `json:"app_state"`
 	CustomPos bool            `json:"custom_pos"`
+	PosFirst  bool            `json:"pos_first,omitempty"`
 	Pruning   *[2]int64       `json:"pruning,omitempty"` // keepRecent, keepEvery; nil = zero value of the multistore
 	MaxGas    int64           `json:"max_gas"`
 	// SecpValidators: the consensus parameters also allow secp256k1 validator keys
@@ -261,6 +262,7 @@ func (e *Env) newApp() (*App, error) {
 	o := e.Opts
 	o.RPCAddr = e.Idx.Addr
 	o.CustomPos = e.Init.CustomPos
+	o.PosFirst = e.Init.PosFirst
 	o.Pruning = pruningOf(e.Init.Pruning)
 	if e.Init.Trace && o.Tracer == nil {
 		o.Tracer = ioutil.Discard
